@@ -144,6 +144,15 @@ def build_model(pid, want_proof=True):
                 bad = axioms - ALLOWED_AXIOMS
                 if bad:
                     machinery_error('unexpected axioms under %s: %s' % (pid, ', '.join(sorted(bad))))
+            # tie (a): a table this property's theorems rest on that the translator could NOT regenerate (the code moved out of the shape the parser knows) means the
+            # theorems were checked against the committed reference copy, not against today's source: the obligation "model = code" is open
+            if info['proof_ok'] and isinstance(tstatus, dict):
+                rc3, out3, _ = sh(f'coqdep -Q . "" -Q Gen "" -Q Props "" -sort Props/{pid}.v', cwd=COQ)
+                deps = set(re.findall(r'Gen/(Gen\w+)\.v', out3))
+                stale = sorted(d for d in deps if tstatus.get(d) == 'unparsed')
+                if stale:
+                    info['proof_ok'] = False
+                    info['broken'] = 'translator: ' + ', '.join(stale) + ' could not be regenerated from the source (shape unknown to the parser); the theorems of Props/%s.v were checked against the reference copy only' % pid
         elif want_proof:
             info['broken'] = 'Props/%s.v missing' % pid
         bad = forbidden_scan()
